@@ -22,3 +22,8 @@ pub(crate) fn peers_of(s: &PeersStore, info_hash: &Id) -> usize {
         None => 0,
     }
 }
+
+/// (capacity for info hashes, capacity per info hash)
+pub(crate) fn caps(s: &PeersStore) -> (usize, usize) {
+    (s.info_hashes.cap().get(), s.max_peers.get())
+}
